@@ -1210,7 +1210,9 @@ impl<V: View> View for TimesPos<V> {
             (Val::ValI(min_val), Val::ValI(scale)) => {
                 // For positive scaling: min = x * scale, so x >= min / scale
                 // Use ceiling division for minimum bound
-                let required_min = (min_val + scale - 1) / scale; // ceiling division
+                // (mathematical ceiling, also for negative bounds)
+                let q = min_val.div_euclid(scale);
+                let required_min = if min_val.rem_euclid(scale) != 0 { q + 1 } else { q };
                 self.x.try_set_min(Val::ValI(required_min), ctx)
             }
             (Val::ValF(min_val), Val::ValF(scale)) => {
@@ -1237,7 +1239,8 @@ impl<V: View> View for TimesPos<V> {
             (Val::ValI(max_val), Val::ValI(scale)) => {
                 // For positive scaling: max = x * scale, so x <= max / scale
                 // Use floor division for maximum bound
-                let required_max = max_val / scale; // floor division
+                // (mathematical floor, also for negative bounds)
+                let required_max = max_val.div_euclid(scale);
                 self.x.try_set_max(Val::ValI(required_max), ctx)
             }
             (Val::ValF(max_val), Val::ValF(scale)) => {
